@@ -172,10 +172,21 @@ def nb_pair(gen, cls=None, minor=None):
     elif cls == "attachments":
         c = gen.cell(m, "markdown")
         c["attachments"] = {"a.png": gen.mimebundle(True)}
+        if r.random() < 0.4:
+            # JSON-typed attachments: any JSON value is allowed, also a bare number / boolean
+            c["attachments"]["data.json"] = {"application/json": r.choice([3, 2.5, True, {"k": 1}, [1, 2], "text", None])}
+            if r.random() < 0.5:
+                c["attachments"]["spec.vl.json"] = {"application/vnd.custom+json": r.choice([0, False, 1.0, {"mark": "bar"}])}
         a["cells"].insert(0, c)
         b = copy.deepcopy(a)
         for _ in range(r.randrange(1, 3)):
             rec.append(mutate_once(b, gen, "attachments") or "noop")
+        for name in ("data.json", "spec.vl.json"):
+            att = b["cells"][0].get("attachments", {})
+            if name in att and att[name] and r.random() < 0.6:
+                from .gen_edit import _edit_bundle
+                _edit_bundle(att[name], gen)
+                rec.append("json-attachment-edit")
     elif cls == "meta_types":
         tgt = r.choice(["nb", "cell"]) if a["cells"] else "nb"
         md = a["metadata"] if tgt == "nb" else a["cells"][0]["metadata"]
@@ -332,7 +343,7 @@ TRIPLE_CLASSES = ["random", "random", "random", "del_vs_edit", "del_vs_edit", "i
                   "minor_diff", "retype", "empty_source", "both_append_outputs", "exec_count", "fixture",
                   "nbmeta_conflict", "out_meta_conflict", "multi_line_meta", "del_vs_transient", "del_vs_transient",
                   "both_insert_lists", "nul_in_source", "same_insert_edit_below", "transient_meta_conflict",
-                  "del_vs_output_edit", "large_outputs", "long_notebook", "wide_metadata", "both_rerun", "both_rerun", "same_size_sides", "repeated_content"]
+                  "del_vs_output_edit", "large_outputs", "long_notebook", "wide_metadata", "both_rerun", "both_rerun", "same_size_sides", "repeated_content", "same_frame_insert"]
 
 
 def merge_triple(gen, cls=None, minor=None, plain_eol=False):
@@ -437,6 +448,16 @@ def merge_triple(gen, cls=None, minor=None, plain_eol=False):
             c_ = gen.cell(m, r.choice(["code", "markdown"]))
             c_["source"] = "\n".join(gen.line(CODE_LINES) + " %d" % r.randrange(1000) for _ in range(4)) + "\n"
             return c_
+        if r.random() < 0.3:
+            # a run of mutually dissimilar cells of UNEQUAL length on the two sides, then (later in the same insertion)
+            # a similar-but-not-identical pair, possibly followed by more
+            nl, nr = r.choice([(1, 2), (2, 1), (1, 3), (3, 1), (2, 3), (0, 2), (2, 0)])
+            litems.extend(fresh_cell() for _ in range(nl))
+            ritems.extend(fresh_cell() for _ in range(nr))
+            for _ in range(r.choice([0, 0, 1])):
+                same = fresh_cell()
+                litems.append(same)
+                ritems.append(copy.deepcopy(same))
         for j in range(r.choice([1, 2, 2, 3, 4, 5])):
             c1 = fresh_cell()
             cc = r.random()
@@ -697,6 +718,29 @@ def merge_triple(gen, cls=None, minor=None, plain_eol=False):
             if r.random() < 0.3:
                 break
         info = {"occurrences": where, "local_edits": li, "remote_edits": ri, "what": what}
+    elif cls == "same_frame_insert":
+        # both sides insert a block at the SAME line position of a source (or stream text); the two blocks open and
+        # close with the same line (a blank line, a separator comment) around different bodies
+        n = r.choice([2, 3, 5])
+        lines = ["stmt_%d = %d" % (j, r.randrange(100)) for j in range(n)]
+        fin = r.choice(["\n", ""])
+        c = gen.cell(m, "code")
+        c["source"] = "\n".join(lines) + fin
+        c["outputs"], c["execution_count"] = [], None
+        pos = r.randrange(len(base["cells"]) + 1)
+        for nb in (base, loc, rem):
+            nb["cells"].insert(pos, copy.deepcopy(c))
+        j = r.randrange(1, n) if n > 1 else 1
+        frame = r.choice(["", "", "# ---", "    "])
+        frame_end = frame if r.random() < 0.8 else r.choice(["", "# end"])
+        def block(tag):
+            body = ["def f_%s(x):" % tag, "    return x + %d" % r.randrange(9)][: r.choice([1, 2])]
+            return [frame] + body + [frame_end]
+        ll = lines[:j] + block("local") + lines[j:]
+        rl = lines[:j] + block("remote") + lines[j:]
+        loc["cells"][pos]["source"] = "\n".join(ll) + fin
+        rem["cells"][pos]["source"] = "\n".join(rl) + fin
+        info = {"pos": pos, "line": j, "frame": frame}
     elif cls == "nul_in_source":
         # a NUL character inside a source (valid JSON, valid notebook): external text tools treat the text as binary
         lines = ["line one of %d" % r.randrange(99), "binary \x00 payload pasted here", "line three", "line four"]
@@ -872,6 +916,17 @@ def merge_triple(gen, cls=None, minor=None, plain_eol=False):
             loc, _ = mutate(loc, gen, steps=1)
             rem, _ = mutate(rem, gen, steps=1)
         info = {"minors": [m, loc["nbformat_minor"], rem["nbformat_minor"]]}
+    elif cls == "retype" and base["cells"][k]["cell_type"] != "code" and r.random() < 0.35:
+        # both sides turn the same markdown / raw cell into a code cell and run it: the code-only members are ADDED on
+        # both sides, the execution counts with different values
+        for side_nb, ec in ((loc, r.choice([1, None])), (rem, r.choice([2, 2, 1]))):
+            c_ = side_nb["cells"][k]
+            c_["cell_type"] = "code"
+            c_.pop("attachments", None)
+            c_["metadata"].pop("format", None)
+            c_["execution_count"] = ec
+            c_["outputs"] = [] if ec is None or r.random() < 0.5 else [{"output_type": "execute_result", "execution_count": ec, "metadata": {}, "data": {"text/plain": "%d" % ec}}]
+        info = {"k": k, "both_to_code": True}
     elif cls == "retype":
         tmpl = {"nbformat": 4, "nbformat_minor": m, "metadata": {}, "cells": [loc["cells"][k]]}
         mutate_once(tmpl, gen, "retype")
@@ -883,6 +938,22 @@ def merge_triple(gen, cls=None, minor=None, plain_eol=False):
             mutate_once(tmpr, gen, "retype")
         else:
             mutate_once(tmpr, gen, "cell_meta")
+        # a cell turned into a code cell is usually RUN afterwards: counts (different per side) and outputs appear
+        for side_nb, ec in ((tmpl, 1), (tmpr, r.choice([1, 2]))):
+            c_ = side_nb["cells"][0]
+            if c_["cell_type"] == "code" and base["cells"][k]["cell_type"] != "code" and r.random() < 0.6:
+                c_["execution_count"] = ec
+                if r.random() < 0.5:
+                    c_["outputs"] = [{"output_type": "execute_result", "execution_count": ec, "metadata": {}, "data": {"text/plain": "%d" % ec}}]
+    elif cls == "empty_source" and r.random() < 0.45:
+        # the cell is EMPTY in base (the trailing cell Jupyter leaves) and both sides typed into it
+        base["cells"][k]["source"] = ""
+        first = gen.line(CODE_LINES)
+        lt = "\n".join([first] + [gen.line(CODE_LINES) for _ in range(r.choice([0, 1, 2]))])
+        rt = "\n".join(([first] if r.random() < 0.4 else []) + [gen.line(CODE_LINES) + " # r" for _ in range(r.choice([1, 2]))])
+        loc["cells"][k]["source"] = lt + r.choice(["", "\n"])
+        rem["cells"][k]["source"] = (rt if r.random() < 0.85 else lt) + r.choice(["", "\n"])
+        info = {"k": k, "base_empty": True}
     elif cls == "empty_source":
         loc["cells"][k]["source"] = ""
         cc = r.random()
@@ -988,3 +1059,29 @@ def covering_configs(rng, k):
     while len(cfgs) < k:
         cfgs.append(rng.choice(allc))
     return cfgs[:k]
+
+
+def degenerate_docs():
+    """Small valid notebooks made of EMPTY parts where emptiness is legal: no cells, empty sources, empty output
+    lists / data bundles / tracebacks / attachments / tag lists, whitespace-only sources.  Enumerated exhaustively
+    (ordered pairs, ordered triples) by C01 / C03 / C04."""
+    def mk(cells, md=None):
+        return {"nbformat": 4, "nbformat_minor": 4, "metadata": md or {}, "cells": cells}
+
+    def code(src="", outs=None, ec=None, md=None):
+        return {"cell_type": "code", "metadata": md or {}, "source": src, "execution_count": ec, "outputs": outs if outs is not None else []}
+
+    def mdc(src="", att=None):
+        c = {"cell_type": "markdown", "metadata": {}, "source": src}
+        if att is not None:
+            c["attachments"] = att
+        return c
+    return [mk([]), mk([code()]), mk([code("", [{"output_type": "display_data", "metadata": {}, "data": {}}])]),
+            mk([code("", [{"output_type": "stream", "name": "stdout", "text": ""}])]),
+            mk([code("", [{"output_type": "error", "ename": "", "evalue": "", "traceback": []}])]),
+            mk([mdc("", {})]), mk([mdc("", {"a.png": {}})]), mk([mdc("x", {"a.png": {"image/png": ""}})]),
+            mk([code("\n")]), mk([code("\n\n")]),
+            mk([code("", [{"output_type": "execute_result", "execution_count": None, "metadata": {}, "data": {"text/plain": ""}}])]),
+            mk([code(), code()]), mk([mdc(), mdc(), mdc()]), mk([code("", [], None, {"tags": []})]),
+            mk([], {"kernelspec": {"name": "", "display_name": ""}}),
+            mk([{"cell_type": "raw", "metadata": {}, "source": ""}])]
